@@ -33,7 +33,10 @@ static int do_dec(uint8_t *m, size_t *mlen, const uint8_t *c, size_t clen, const
         api_inc_state st; api_inc_init[alg](&st, n, k); api_inc_start[alg](&st, ad, adlen);
         api_inc_dec[alg](&st, c, m, clen - 16); r = api_inc_decfin[alg](&st, c + clen - 16); api_inc_free[alg](&st);
         *mlen = clen - 16; break; }
-    case 2: { api_masked_key mk; api_masked_key_init(alg, &mk, k); r = api_masked_dec[alg](m, mlen, c, clen, ad, adlen, n, &mk); api_masked_key_free(alg, &mk); break; }
+    case 2: { api_masked_key mk; api_masked_key_init(alg, &mk, k);
+        /* every other call uses the key after it has been re-randomised (once or twice): same key value, other shares */
+        { static unsigned flip; flip++; for (unsigned q = 0; q < flip % 3; q++) api_masked_key_randomize(alg, &mk); }
+        r = api_masked_dec[alg](m, mlen, c, clen, ad, adlen, n, &mk); api_masked_key_free(alg, &mk); break; }
     case 3: r = api_siv_dec[alg](m, mlen, c, clen, ad, adlen, n, k); break;
     case 4: { api_isap_key pk; api_isap_init[alg](&pk, k); r = api_isap_dec[alg](m, mlen, c, clen, ad, adlen, n, &pk); api_isap_free[alg](&pk); break; }
     }
